@@ -39,3 +39,11 @@ add("C16", ["dma_batches"], "exploration",
     "All 256 source pages round-robin x seeded timed histories (writes into source/OAM during the transfer, bank switches under a banked source, restarts at drawn progress) under three batch partitions on the real MemoryAreas; OAM vs RefBus after every machine cycle (P4) and gap, all other memory digests unchanged by elapsed time, engine progress = min(160, cycles), replicas agree.",
     "Trusts RefBus's DMA rule (byte n copied at machine cycle n from the map as it stands). OAM bytes copied from sources whose read value the statement leaves open are not compared.",
     DST + ": batch-partition schedules with mid-transfer mutations vs reference DMA", "DESIGN.md section 4 C16")
+add("C07", ["irq_dispatch"], "exploration",
+    "State injection stratified over IF x IE x master enable x run state x a list of SP classes that put the two pushes on IE, IF, bank registers, DMA/serial/timer/LCD registers, ROM and region edges, plus device-driven histories (timer, LCD, joypad raise the requests at simulated times); Core::handle_interrupt is reached directly, through the halted path of update(), through run_interp() and through run_code_block() in both builds; IF, IE, master enable, run state, PC, SP, undelivered cycles, all RAM, bank mapping and DMA state are compared with RefIntc over RefBus after every step. Evidence reports how many of the 9216 (IF, IE, IME, run state) cells were reached (all, in the quick tier).",
+    "Trusts RefIntc/RefBus. Low-byte push landing on IF: both orders accepted. Pushes onto RAM-enable / MBC3 RTC-select registers are not taken (effect not specified).",
+    DST + ": state/history sampling vs reference interrupt controller; requests raised by simulated devices and injected at step boundaries", "DESIGN.md section 4 C07")
+add("C08", ["ime_sequences"], "exploration",
+    "Generated instruction sequences over {EI, DI, RETI, RET, HALT, STOP, NOP, raise-request, write-IE} in the main routine and in all five vectors, x initial master-enable/run state/pending set, x external IF pokes and joypad events delivered at step boundaries (biased to the EI shadow, to halted periods and to the step after DI/RETI); instruction-stepped in both builds and compared after every step with the RefIme state machine + RefIntc + RefBus.",
+    "Trusts RefIme (EI delay, DI/RETI immediacy, HALT/STOP suspension as stated). HALT/STOP executed with an enabled request pending ends the run (outside the quantifier).",
+    DST + ": instruction sequences x event-arrival schedules vs reference IME/HALT state machine", "DESIGN.md section 4 C08")
